@@ -647,6 +647,12 @@ func (vfs *OrefaFS) OpenFile(name string, flag int, perm fs.FileMode) (avfs.File
 		}
 	}
 
+	// the mode of the file handle : writing needs O_WRONLY or O_RDWR,
+	// whatever permissions O_CREATE or O_TRUNC needed to open the file.
+	if flag&(os.O_WRONLY|os.O_RDWR) == 0 {
+		om &^= avfs.OpenWrite
+	}
+
 	f := &OrefaFile{
 		vfs:      vfs,
 		nd:       child,
